@@ -195,3 +195,7 @@ mod tests {
         assert_eq!(signing_key, &kp.public());
     }
 }
+
+#[cfg(libp2p_verif)]
+#[path = "verif_c21.rs"]
+pub mod verif_c21;
